@@ -73,8 +73,8 @@ FINISH = dict(level="proof",
                    "+ in-place reconfigurations (setfactor / setparams / adaptall) with observations after each; non-trivial = composed kernel "
                    "(depth >= 1) or a Gram op with >= 2 batches; distinct = distinct op text")
 
-LAKE_TARGETS = ["SharkVerif.Props.C05", "drv_c05"]
-PROPS = ["SharkVerif.Props.C05"]
+LAKE_TARGETS = ["SharkVerif.Props.C05", "SharkVerif.Props.C05b", "drv_c05"]
+PROPS = ["SharkVerif.Props.C05", "SharkVerif.Props.C05b"]
 
 
 # ----------------------------------------------------------------------------- values
@@ -648,9 +648,6 @@ def gen_deriv2_case(r, maxn, pointset_ok=False):
             nsum_ok = all(is_pow2(Fraction(int(t))) for t, prev in zip(toks[1:], toks[:-1]) if prev in ("wsum", "subk"))
             if nsum_ok:
                 ops.append("setparams " + " ".join(dy(v) for v in vals)); deriv_ops()
-    a = r.below(n); b = r.range(a + 1, min(n, a + 3)); c = r.below(n); d = r.range(c + 1, min(n, c + 3))
-    if not g.has_norm:
-        ops.append(f"dcheck {a} {b} {c} {d} " + " ".join(str(r.range(-2, 2)) for _ in range((b - a) * (d - c))))
     # PointSetKernel over the same kernel: parameter derivative on a block of sets and through the Gram helper
     if pointset_ok and not g.has_norm and r.chance(1, 2):
         sizes, left = [], n
@@ -663,6 +660,10 @@ def gen_deriv2_case(r, maxn, pointset_ok=False):
         ops.append("ps gderivx " + " ".join(map(str, rand_partition(r, m))))
         ops.append("ps gderiv " + " ".join(map(str, rand_partition(r, m))))
         g.kinds.add("pointset")
+    # finite differences last: the oracle restores the parameters through the log/exp encodings (rounding)
+    a = r.below(n); b = r.range(a + 1, min(n, a + 3)); c = r.below(n); d = r.range(c + 1, min(n, c + 3))
+    if not g.has_norm:
+        ops.append(f"dcheck {a} {b} {c} {d} " + " ".join(str(r.range(-2, 2)) for _ in range((b - a) * (d - c))))
     kinds = set(g.kinds) | {"deriv2"} | ({"adaptive"} if adaptive else set())
     return ops, dict(exact=True, exact_case=True, kinds=kinds, depth=1, n=n, dim=dim, parts=0, M=Fraction(1), f=0)
 
